@@ -63,8 +63,7 @@ def run_tlc(module, cfg=None, workers=None, timeout=600, simulate=None, depth=No
     cfg = cfg or (module + ".cfg")
     meta = os.path.join(wd, "meta-" + module + "-" + str(os.getpid()) + "-" + str(int(time.time() * 1000) % 100000))
     cmd = ["java", "-XX:+UseParallelGC"]
-    if heap:
-        cmd.append("-Xmx" + heap)
+    cmd.append("-Xmx" + (heap or "10g"))
     cmd += ["-Xss256m"]
     if deque:
         cmd.append("-Dtlc2.tool.queue.IStateQueue=StateDeque")
@@ -317,7 +316,7 @@ def validate_chunks(module, trace_name, chunks, cfg=None, parallel=4, timeout=12
         wd = scratch("verif-tr-")
         with open(os.path.join(wd, trace_name), "w") as fh:
             fh.write("\n".join(chunks[k]) + "\n")
-        r = run_tlc(module, cfg, workers=1, timeout=timeout, workdir=wd, deque=deque, files=extra_files)
+        r = run_tlc(module, cfg, workers=1, timeout=timeout, workdir=wd, deque=deque, files=extra_files, heap="1500m")
         fi = None
         if r["violated"]:
             tail = r["out"][r["out"].find("is violated"):]
